@@ -443,7 +443,10 @@ PROPS["C12"] = {
                    "exactly the canonical form its author signed (conforming_document_message_partial); what signatures "
                    "are checked against starts with the tag of the role the document is read AS, and the four tags differ "
                    "(reser_tag, reser_roles_differ, tags_differ); documents whose signatures are checked against the same "
-                   "bytes have the same content up to the normal form of C11 (signed_bytes_determine_content). "
+                   "bytes have the same content up to the normal form of C11 (signed_bytes_determine_content), and documents "
+                   "read as different top-level roles are never checked against the same bytes, whatever keys the roles "
+                   "share (roles_never_share_signed_bytes: the tag survives the normal form and the canonical form is "
+                   "injective). "
                    "Correspondence: parse / verify outcome and the bytes "
                    "tough checks signatures against (`canonical_form`) equal the model's `message`, for every mutant. "
                    "Property on the implementation: an accepted mutant has a parsed struct EQUAL (derived PartialEq) to "
@@ -454,7 +457,9 @@ PROPS["C12"] = {
     "level_note": "PARTIAL: (1) 'a change that alters a used value makes the document unacceptable' is proved up to the "
                   "unforgeability of signatures: documents checked against the same bytes have the same content up to "
                   "C11's normal form (signed_bytes_determine_content, using the injectivity of the canonical form); "
-                  "byte-level role separation (different tags => different bytes) is proved at the level of values only; "
+                  "documents read as different top-level roles are never checked against the same bytes "
+                  "(roles_never_share_signed_bytes; assumes of the string normaliser, beyond C11's assumptions, that ASCII "
+                  "tags are fixed and that only `_type` normalises to `_type` - true of Unicode NFC); "
                   "on the implementation both are checked mutant by mutant with struct equality; (2) the conformance "
                   "theorem excludes unknown members inside `delegations` and `delegations.roles[]` (known findings, with "
                   "a Lean witness); (3) chrono's RFC 3339 re-spelling and key identifiers are oracles of the model "
